@@ -30,6 +30,12 @@ CLAIMED = {
         text="Lean theorems: an enum-level literal mentioning _variant wraps every variant around the variant's own text (wraps_every_variant), the bare {_variant} is the identity, a literal without _variant is used only for unattributed variants, _variant with a specifier and Debug enum-level literals are rejected; model compared with the working tree on generated enums; 120 generated enums are printed variant by variant with the real macro and compared with a reference written with plain format! calls",
         note="Lean kernel; model tied by differential run; convert_case is a parameter; the reference text is produced by std's format! in the same process",
         ref="DESIGN.md §4 C07"),
+    "C02": dict(
+        level="proof",
+        technique="Lean 4 theorems about the generated fmt bodies + token-level correspondence + values printed with the real macro against format! of the same literal",
+        text="Lean theorems: a non-transparent attribute reaches write! verbatim with only the `f = *f` re-bindings, which exist exactly for fields named under Pointer and not aliased (deref_args_iff); named placeholders print the field itself; unit -> (renamed, unraw) name; single field -> Trait::fmt(field). The model's body token text equals the working tree's on generated items; ~460 generated types (random + systematic name-kind x type x trait grid) are printed with the real macro and compared byte-for-byte with a format! of the same literal under the documented bindings",
+        note="Lean kernel; model tied by differential run; format_args! is the same macro on both sides; `&T` formats like `T` except under Pointer (validated by the run); convert_case is a parameter",
+        ref="DESIGN.md §4 C02"),
 }
 
 NOT_APPLICABLE = {}
